@@ -17,7 +17,7 @@ EXPLANATION = (
     "constructed only as Unsupported / ToxicGraph / Io / Dataset. (R6.4) panic audit of the canonicalisation functions: each "
     "unwrap/index is auto-discharged or audited by exact key. (R6.5) in Hash N-Degree Quads every occurrence of a related blank "
     "node is appended to Hn[hash] (the push post-dominates the related-hash computation: no de-duplication, step 3.1.2). "
-    "(R6.6) each permutation issues temporary identifiers on its own clone of the issuer (step 5.4.2). "
+    "(R6.7) in step 5.2 a node of a hash group is skipped, if at all, only because a canonical identifier has been issued for it. (R6.6) each permutation issues temporary identifiers on its own clone of the issuer (step 5.4.2). "
     "NOT decided: equality with the W3C algorithm's output (hash inputs, "
     "path comparison and pruning, issuer copies).")
 
@@ -387,8 +387,72 @@ def issuer_copy_rule(ck, facts):
         ck.ok("R6.6", "each permutation issues identifiers on its own clone of the issuer (%d issue sites)" % len(issues))
 
 
+def step52_rule(ck, facts):
+    """R6.7 (RDFC-1.0 step 5.2): in the loop over the blank nodes of one hash group, Hash N-Degree Quads is computed for every
+    node, except possibly those for which a *canonical* identifier has already been issued (step 5.2.1).  A node skipped on
+    any other ground (e.g. because a temporary issuer of a previous node has reached it) makes the numbering depend on the
+    order in which the group is walked, i.e. on the input labels."""
+    fn = find(ck, facts, "R6.7", r"^rdfc10::relabel_with$", "relabel_with")
+    if fn is None:
+        return
+    hs = [(bi, t) for bi, t in fn.calls() if call_name_matches(t, r"::hash_n_degree_quads$")]
+    if len(hs) != 1:
+        ck.bad("R6.7", "R6.7@relabel_with#shape", "expected one call of hash_n_degree_quads in relabel_with (found %d)" % len(hs), fn.loc)
+        return
+    hb, ht = hs[0]
+    # the innermost loop head dominating the call
+    heads = [bi for bi, t in fn.calls() if call_name_matches(t, r"iter::Iterator>?::next$|Iterator>::next$") and fn.dominates(bi, hb)
+             and bi in fn.reachable(ht["to"])]
+    if not heads:
+        ck.bad("R6.7", "R6.7@relabel_with#loop", "hash_n_degree_quads is not called in a loop over the hash group", fn.loc)
+        return
+    head = max(heads, key=lambda b: len(fn.dominators().get(b, ())))
+    # from the point where an element of the group has been obtained (the Some edge of the loop's `next`)
+    some_t = None
+    for cand in sorted(fn.reachable(fn.blocks[head]["t"]["to"])):
+        tt = fn.blocks[cand]["t"]
+        if tt["t"] == "switch" and (tt.get("variants") or {}).get("enum") == "core::option::Option":
+            o = fn.origin(tt["on"])
+            if o[0] == "rvalue" and o[1][0] == "discr" and o[1][1] == fn.blocks[head]["t"]["dest"]:
+                some_t = dict((v, b2) for v, b2 in tt["vals"]).get("1", tt["else"])
+                break
+    if some_t is None:
+        ck.bad("R6.7", "R6.7@relabel_with#loop-shape", "cannot find the Some edge of the loop over the hash group", fn.loc)
+        return
+    body = fn.reachable(some_t, avoid={hb})
+    if head not in body:
+        ck.ok("R6.7", "relabel_with step 5.2: hash_n_degree_quads is computed for every node of the group (no skip)")
+        return
+    # there is a way round the call: every decision on it must be a test of the canonical issuer
+    bad = None
+    for b in sorted(body):
+        if not fn.dominates(head, b) or b == head:
+            continue
+        bs = bool_switch(fn, b)
+        if bs is None:
+            continue
+        if hb in fn.reachable(bs[1], avoid={head}) and hb in fn.reachable(bs[2], avoid={head}):
+            continue            # not the deciding branch (both edges still reach the call in this iteration)
+        o = bs[0]
+        ok = False
+        if o[0] == "call" and call_name_matches(o[1], r"::(contains_key|get|is_some|is_none)$"):
+            recv = provenance(fn, o[1]["args"][0], transparent=())[-1]
+            path = recv[2] if recv[0] == "param" else (recv[1][1:] if recv[0] == "place" else [])
+            ok = any(str(p).endswith(":canonical") for p in path) and any(str(p).endswith(":issued") for p in path)
+        if not ok:
+            bad = b
+    if bad is not None:
+        t = fn.blocks[bad]["t"]
+        ck.bad("R6.7", "R6.7@relabel_with#foreign-skip", "a node of a hash group can be skipped (no hash_n_degree_quads) on a condition that is "
+               "not `a canonical identifier has been issued for it` (RDFC-1.0 step 5.2.1): the canonical numbering then depends on the "
+               "order in which the group is walked", "%s:%s" % (fn.file, t.get("line")))
+    else:
+        ck.ok("R6.7", "relabel_with step 5.2: a node is skipped only when a canonical identifier has been issued for it")
+
+
 def run(ck, facts, tier):
     facts.require_crates(["sophia_c14n"])
+    step52_rule(ck, facts)
     related_list_rule(ck, facts)
     issuer_copy_rule(ck, facts)
     escape_rule(ck, facts)
